@@ -14,7 +14,7 @@ func init() {
 		Title: "BEP 44 versions only move forward: seq, CAS and expiry",
 		Decided: "C13.1 an overwrite of an existing target is dominated by CheckIncoming(stored, incoming)=nil with stored = the wrapper's own Get of the incoming item's target; a first write only under 'item not found'; " +
 			"C13.2 the 302 return is guarded by stored.Seq ≥ incoming.Seq (equal seq ∧ equal value refreshes), the 301 return by incoming.Cas ≠ stored.Seq, and the CAS test may be skipped only when the incoming put carries no cas; " +
-			"C13.3 the wrapper's compound store operations (Get→Put, Get→Del) run inside one critical section of a wrapper-owned mutex; " +
+			"C13.3 the wrapper's compound store operations (Get→Put, Get→Del) run inside one critical section of a wrapper-owned mutex (raw store calls are counted through the wrapper's own helpers, so a validate-then-store split across two lock acquisitions is reported); " +
 			"C13.4 Wrapper.Get returns an item only if created+exp is after now; created is stamped before each store and nowhere else; a get naming seq is sent v/k/sig only when the stored seq is newer; " +
 			"C13.6 the configured raw Store flows only into NewWrapper and its Get/Put/Del are invoked only inside the wrapper, so every served item passed the expiry test and every stored one the version test.",
 		NotDecided: "linearizability of real histories against arbitrary Store implementations (the Store is an opaque hook); 301 vs 302 precedence when both apply (the statement does not fix it).",
@@ -154,9 +154,45 @@ func c13r3(w *World, rr *RuleRun) {
 		if f == nil || !w.P.IsLib(f) || f.Synthetic != "" {
 			continue
 		}
-		isStoreCall := func(ins ssa.Instruction) bool {
+		isRaw := func(ins ssa.Instruction) bool {
 			c := callInstrCommon(ins)
 			return c != nil && c.IsInvoke() && (c.Method == a.sPut || c.Method == a.sGet || c.Method == a.sDel)
+		}
+		// a call of a library helper that itself performs a raw store operation (directly or through
+		// further helpers, depth ≤ 3) is a store operation of this method (C13-v2: the read and the
+		// checks moved into a validate() helper that takes and releases the lock on its own)
+		var performs func(g *ssa.Function, depth int) bool
+		performs = func(g *ssa.Function, depth int) bool {
+			if g == nil || depth > 3 || !w.P.IsLib(g) || len(g.Blocks) == 0 {
+				return false
+			}
+			for _, b := range g.Blocks {
+				for _, ins := range b.Instrs {
+					if isRaw(ins) {
+						return true
+					}
+					if c := callInstrCommon(ins); c != nil && !c.IsInvoke() {
+						if h := c.StaticCallee(); h != nil && h != g && performs(h, depth+1) {
+							return true
+						}
+					}
+				}
+			}
+			return false
+		}
+		isStoreCall := func(ins ssa.Instruction) bool {
+			if isRaw(ins) {
+				return true
+			}
+			if _, isGo := ins.(*ssa.Go); isGo {
+				return false
+			}
+			c := callInstrCommon(ins)
+			if c == nil || c.IsInvoke() {
+				return false
+			}
+			h := c.StaticCallee()
+			return h != nil && h != f && performs(h, 1)
 		}
 		maxCalls := 0
 		for _, mm := range ExitCounts(f, isStoreCall) {
@@ -182,6 +218,9 @@ func c13r3(w *World, rr *RuleRun) {
 			}
 		}
 		for _, c := range calls {
+			if !isRaw(c) {
+				continue // the helper's own raw calls are obliged where they stand
+			}
 			st := w.LK.StatesAt(wmu, c)
 			rr.At(w, c, "raw store call under "+w.LK.ClassName(wmu), allHeld(st, true), "lock states "+statesString(st))
 		}
